@@ -49,8 +49,12 @@ def c02(ctx):
             rec = json.loads(lines[x["bad"] - 1])
             import fen as fenlib
             ctx.violation(x["why"], {"binding": "B2 Trace_Gen", "fen": fenlib.fen(rec["pos"]), "query": rec, "diagnosis": x["x"]}, sig={"what2": rec["what"]})
-    if nbad != summ["move_disagreements"] + summ["attack_disagreements"]:
-        raise ToolError("harness saw %d disagreements, TLC reported %d" % (summ["move_disagreements"] + summ["attack_disagreements"], nbad))
+    seen = summ["move_disagreements"] + summ["attack_disagreements"]
+    ctx.extra["disagreements_seen_by_the_recorder"] = seen
+    # the recorder logs the first 300 disagreements of each kind (and whatever the agreement sample happens to
+    # contain); TLC must confirm at least those, and none when the recorder saw none
+    if (seen == 0 and nbad != 0) or nbad < min(seen, 300):
+        raise ToolError("harness saw %d disagreements, TLC reported %d" % (seen, nbad))
     ctx.traces += 1
     ctx.evaluations += summ["nodes"] + summ["attack_checks"]
     ctx.nontrivial += summ["long_lived_cache_hits"]
